@@ -97,11 +97,18 @@ def retypes_key_attr(t, op):
             in_use.setdefault(name, typ)
     for ch in op.get("changes", []):
         if "create" in ch:
-            k = ch["create"]["key"]
-            for name, typ in [k["hash"]] + ([k["range"]] if k.get("range") else []):
-                if name in in_use and in_use[name] != h2s(typ):
+            for name, typ in key_defs(ch["create"]).items():
+                if name in in_use and in_use[name] != typ:
                     return True
     return False
+
+
+def key_defs(d):
+    """the attribute definitions a request sends along with an index definition"""
+    if d.get("noDefs"):
+        return {}
+    k = d["key"]
+    return {name: h2s(typ) for name, typ in [k["hash"]] + ([k["range"]] if k.get("range") else [])}
 
 
 class SpecTable:
@@ -109,9 +116,11 @@ class SpecTable:
         k = op["key"]
         self.schema = [(k["hash"][0], h2s(k["hash"][1]))] + ([(k["range"][0], h2s(k["range"][1]))] if k.get("range") else [])
         self.indexes = {}
+        self.attrs = dict(self.schema)          # the attribute definitions the table knows
         for kind in ("gsi", "lsi"):
             for d in (op.get(kind) or []):
                 self.add_index(d, kind)
+                self.attrs.update(key_defs(d))
         self.items = {}
 
     def add_index(self, d, kind="gsi"):
@@ -238,17 +247,30 @@ def run_world(case, sdk, checks):
                 w.flag(i, "key-attribute-retyped", "UpdateTable accepted attribute definitions that give a key attribute in use another type", impl=json.dumps(o)[:100])
             continue
         if name == "updateTable":
-            # apply the changes that went through: stop at the first one that must fail
+            # an index whose key attributes the table has no definition for (none in the request, none from an earlier
+            # successful request) cannot be created: the definitions of a request that failed are not there
+            undefined = None
+            known = dict(t.attrs)
             for ch in op.get("changes", []):
                 if "create" in ch:
-                    t.add_index(ch["create"])
-                else:
-                    if ch["delete"] in t.indexes:
-                        del t.indexes[ch["delete"]]
+                    known.update(key_defs(ch["create"]))
+                    kd = ch["create"]["key"]
+                    for an, _ in [kd["hash"]] + ([kd["range"]] if kd.get("range") else []):
+                        if an not in known and undefined is None:
+                            undefined = an
+            if undefined is not None and k == "describe" and ({"lifecycle", "index", "observe"} & set(checks)):
+                w.flag(i, "index-on-undefined-attribute", "UpdateTable created an index on %r, an attribute the table has no definition for "
+                       "(a definition sent with a request that failed is no definition)" % hx(undefined), impl=json.dumps(o)[:100])
+            if k == "describe":
+                # the request went through: all its definitions and changes are in effect; a request that failed leaves nothing
+                for ch in op.get("changes", []):
+                    if "create" in ch:
+                        t.add_index(ch["create"])
+                        t.attrs.update(key_defs(ch["create"]))
                     else:
-                        break
-            if k == "describe" and ("lifecycle" in checks or "index" in checks):
-                check_describe(w, i, t, o)
+                        t.indexes.pop(ch["delete"], None)
+                if "lifecycle" in checks or "index" in checks:
+                    check_describe(w, i, t, o)
             continue
         # ---- single item operations
         if "frontend" in checks and name in ("put", "update", "delete") and (op.get("garbageCond") or op.get("garbageUpdate")):
@@ -830,7 +852,10 @@ def judge_equiv(case):
 def judge_restrictions_hist(case, sdk):
     """C16 on histories: placeholder rules at the client API"""
     v = []
+    native = False
     for i, (op, o) in enumerate(zip(case["ops"], case["impl"][sdk])):
+        if op["op"] == "activateNative":
+            native = True
         if op["op"] not in ("put", "update", "delete", "query", "pages"):
             continue
         names = [hx(n[0]) for n in op.get("names") or []]
@@ -844,6 +869,13 @@ def judge_restrictions_hist(case, sdk):
             why = "unused placeholder %s accepted" % unused if unused else "malformed placeholder key %s accepted" % malformed
             v.append({"sdk": sdk, "step": i, "sig": "placeholder-unused" if unused else "placeholder-malformed", "why": why, "op": op["op"],
                       "prefix": any(any(u != t and t.startswith(u) for t in toks) for u in unused)})
+        # a #name or :value the expressions use has to come with the request (expressions that are no sentences are another
+        # matter, and so are the texts a native registration stands for)
+        garbage = any(op.get(f) for f in ("garbageKey", "garbageFilter", "garbageCond", "garbageUpdate"))
+        unsupplied = sorted(t for t in toks if t[:1] in (b"#", b":") and placeholder_ok(t) and t not in names + values)
+        if unsupplied and not garbage and not native and not unused and not malformed and k not in ("err", "panicErr", "pagesErr"):
+            v.append({"sdk": sdk, "step": i, "sig": "placeholder-unsupplied", "op": op["op"],
+                      "why": "the expressions use %s, which the request does not supply; the request was accepted" % [x.decode("latin1") for x in unsupplied]})
     return v
 
 
